@@ -233,7 +233,11 @@ fn bfs_polling(ctx: &Ctx, prop: &'static str, name: &str, ch: u8, timeout_ns: u6
             alphabet.push(Op::cc(ch, cn, v));
         }
     }
-    alphabet.push(Op::cc(ch, 7, 1));
+    // non-contributing Control Changes (neighbours of the eight controllers, channel mode range)
+    for cn in [0u8, 5, 7, 37, 39, 64, 95, 102, 120, 121, 127] {
+        alphabet.push(Op::cc(ch, cn, 1));
+    }
+    alphabet.push(Op::Feed { carrier: 2, s: 0xFF, d1: 0, d2: 0 });
     alphabet.push(Op::Reset);
     alphabet.push(Op::Poll(ch));
     if timeout_ns > 0 && HAVE_CLOCK {
@@ -289,7 +293,16 @@ fn bfs_polling(ctx: &Ctx, prop: &'static str, name: &str, ch: u8, timeout_ns: u6
         set_age_cap(u64::MAX);
         k
     };
-    let out = bfs(ctx, BState { sc: new_scanner(timeout_ns), ob: PollObserver::new(timeout_opt(timeout_ns)), now: 0 }, alphabet.len(), step, key, 6_000_000);
+    let mut out = bfs(ctx, BState { sc: new_scanner(timeout_ns), ob: PollObserver::new(timeout_opt(timeout_ns)), now: 0 }, alphabet.len(), &step, key, 6_000_000);
+    let mut probe_transitions = 0u64;
+    if out.failure.is_none() && !ctx.reduced {
+        // repetition probes (wrapping counters) from a bounded number of states
+        let (tr, f) = repetition_probes(ctx, &out, alphabet.len(), &step, &[255, 256, 257], 600);
+        probe_transitions = tr;
+        if f.is_some() {
+            out.failure = f;
+        }
+    }
     let mut sub = Sub::new(
         name,
         &format!(
@@ -303,12 +316,13 @@ fn bfs_polling(ctx: &Ctx, prop: &'static str, name: &str, ch: u8, timeout_ns: u6
         "non-trivial = transition taken from a non-initial state",
         out.complete && out.failure.is_none(),
     );
-    sub.evals = out.transitions;
+    sub.evals = out.transitions + probe_transitions;
     sub.states = out.states.len() as u64;
     sub.transitions = out.transitions;
-    sub.nontrivial = out.transitions.saturating_sub(alphabet.len() as u64);
+    sub.nontrivial = (out.transitions + probe_transitions).saturating_sub(alphabet.len() as u64);
     sub.wall_ms = t0.elapsed().as_millis() as u64;
     sub.class_n("bfs_depth", out.max_depth as u64);
+    sub.class_n("repetition_probe_transitions", probe_transitions);
     sub.class_n("pruned_violation_of_other_property", pruned_other.load(std::sync::atomic::Ordering::Relaxed));
     if !out.complete && out.failure.is_none() {
         sub.notes.push("state cap reached before the fixpoint".into());
@@ -557,7 +571,7 @@ pub fn run_c13(ctx: &Ctx) -> Report {
     let mut subs = Vec::new();
     // R: histories biased towards polls and time steps
     {
-        let cases = ctx.pick(3_000u64, 40_000, 1_000_000);
+        let cases = ctx.pick(3_000u64, 150_000, 1_000_000);
         let max_len = ctx.pick(32usize, 64, 300);
         let mut sub = observed_sub(ctx, "C13", "observed_histories", cases, max_len, &ALL_TIMEOUT_IDX, Some(timing_weights));
         sub.floor("has_poll_report", 100);
@@ -579,7 +593,7 @@ pub fn run_c13(ctx: &Ctx) -> Report {
     }
     // scenario families
     {
-        let cases = ctx.pick(2_000u64, 40_000, 800_000);
+        let cases = ctx.pick(2_000u64, 150_000, 800_000);
         let max_len = ctx.pick(16usize, 32, 100);
         let proto = Sub::new(
             "scenario_families",
@@ -620,7 +634,7 @@ pub fn run_c13(ctx: &Ctx) -> Report {
 pub fn run_c14(ctx: &Ctx) -> Report {
     let mut subs = Vec::new();
     {
-        let cases = ctx.pick(3_000u64, 40_000, 1_000_000);
+        let cases = ctx.pick(3_000u64, 150_000, 1_000_000);
         let max_len = ctx.pick(32usize, 64, 400);
         let mut sub = observed_sub(ctx, "C14", "observed_histories", cases, max_len, &C14_TIMEOUT_IDX, None);
         sub.floor("has_report", 300);
